@@ -39,7 +39,7 @@ OpTypes == {"filter", "bind", "unbind", "resync", "apirelease", "poolupsert", "r
 \* lock while doing so; the code did not before a fix: commit)
 IsFilter(o) == o.type \in {"filter", "preempt"}
 \* ("bindLockFirst" -- Bind taking the pod lock before its lister lookup -- is a switch the code does not have)
-AllGuards == {"unbindUid", "bindStaleLister", "bindUidGuard", "bindPoolSize", "resyncReread", "apiDoubleCheck"}
+AllGuards == {"unbindUid", "bindStaleLister", "bindUidGuard", "bindPoolSize", "bindReuseReserve", "resyncReread", "apiDoubleCheck"}
              \cup {"podlock:" \o t : t \in OpTypes} \cup {"dplock:" \o t : t \in OpTypes}
 
 VARIABLES
@@ -135,6 +135,7 @@ Call(o) ==
       [] o.pc = "first"        -> C("First", [key |-> L.key])
       [] o.pc = "nodesubnets"  -> C("NodeSubnetsByIPRanges", [ranges |-> L.unalloc])
       [] o.pc = "allocwithkey" -> C("AllocateInSubnetWithKey", [oldK |-> L.oldK, newK |-> L.key, subnet |-> L.rs, attr |-> Attr(L.policy, L.lpod.uid, "")])
+      [] o.pc = "allocwithkey_b" -> C("AllocateInSubnetWithKey", [oldK |-> PoolPrefix(L.lpod), newK |-> L.key, subnet |-> L.rs, attr |-> Attr(L.policy, L.lpod.uid, o.node)])
       [] o.pc = "allocinsubnet" -> C("AllocateInSubnet", [key |-> L.key, subnet |-> L.rs, attr |-> IF o.type = "poolupsert" THEN Attr(2, "", "") ELSE Attr(L.policy, L.lpod.uid, "")])
       [] o.pc = "allocmulti"   -> C("AllocateMulti", [key |-> L.key, subnet |-> L.rs, ranges |-> L.unalloc, attr |-> Attr(L.policy, L.lpod.uid, o.node)])
       [] o.pc = "updateattr"   -> C("UpdateAttr", [key |-> L.key, ip |-> L.ips[L.i], attr |-> Attr(L.policy, L.lpod.uid, o.node)])
@@ -263,8 +264,12 @@ Cont(o, r) ==
         ELSE IF Len(unalloc) > 0 \/ Len(ips) = 0
           THEN IF "bindPoolSize" \in Guards /\ p.pool # "" /\ p.pool \in DOMAIN poolobj THEN {Finish(o, FALSE)}   \* sized pool: filter allocates
                ELSE IF NodeSubnetOf(o.node) = "none" THEN {Finish(o, FALSE)}
+               \* a deployment/pool pod with a reserving policy first tries the reserve of its app (the IP it held during filter may be back there)
+               ELSE IF "bindReuseReserve" \in Guards /\ p.kind = "dp" /\ L.policy # 0 /\ Len(p.ranges) = 0
+                 THEN {[o1 EXCEPT !.pc = "allocwithkey_b", !.loc.rs = NodeSubnetOf(o.node)]}
                ELSE {[o1 EXCEPT !.pc = "allocmulti", !.loc.rs = NodeSubnetOf(o.node)]}
           ELSE {BindSkip(o1)}
+   [] o.type = "bind" /\ o.pc = "allocwithkey_b" -> IF r.ok THEN {Goto(o, "bykey2")} ELSE {Goto(o, "allocmulti")}
    [] o.type = "bind" /\ o.pc = "allocmulti" -> IF r.ok THEN {Goto(o, "bykey2")} ELSE {Finish(o, FALSE)}
    [] o.type = "bind" /\ o.pc = "bykey2" -> {BindSkip([o EXCEPT !.loc.ips = r.ips, !.loc.i = 1])}
    [] o.type = "bind" /\ o.pc = "assign" ->
